@@ -415,6 +415,55 @@ def multi_epoch(ctx):
         cov.case(("epochs", n, eta, k, i), True)
 
 
+def dual_modules(ctx):
+    """row or column module = DualVigilanceART (several base categories merged into one cluster, so
+    `n_clusters` differs from `len(W)`): shapes, partition and membership (oracle only)"""
+    from artlib import BARTMAP, FuzzyART, DualVigilanceART
+    cov = ctx.cov
+    for i in range(ctx.scale(24, 300)):
+        r = gen.rng_for(ctx.seed, "C17/dual", i)
+        nr, nc = r.choice([(24, 24), (18, 24), (24, 15), (12, 12)])
+        ga, gb = r.randint(2, 4), r.randint(2, 3)
+        cen = [[r.random() for _ in range(gb)] for _ in range(ga)]
+        X = np.array([[cen[a % ga][b % gb] + 0.08 * r.random() for b in range(nc)] for a in range(nr)])
+        eta = r.choice([-1.0, -0.5, 0.0, 0.2])
+        side = r.choice(["a", "b", "ab"])
+        rho, lb = r.choice([(0.9, 0.5), (0.85, 0.6), (0.95, 0.7)])
+
+        def mod(dual):
+            f = FuzzyART(rho if dual else r.choice([0.5, 0.7]), 0.01, 1.0)
+            return DualVigilanceART(f, lb) if dual else f
+        rep = {"shape": [nr, nc], "eta": eta, "dual_side": side, "rho": rho, "rho_lower_bound": lb, "X": X.tolist()}
+        bm = BARTMAP(mod("a" in side), mod("b" in side), eta)
+        try:
+            with quiet():
+                bm.fit(X)
+        except Exception as e:
+            cov.hit("dual:raised:" + classify(e, X, bm))
+            continue
+        rl, cl = np.asarray(bm.row_labels_), np.asarray(bm.column_labels_)
+        na, nb = len(set(rl.tolist())), len(set(cl.tolist()))
+        rows_, cols_ = np.asarray(bm.rows_), np.asarray(bm.columns_)
+        merged = any(len(m.base_module.W) > m.n_clusters for m in (bm.module_a, bm.module_b) if hasattr(m, "base_module"))
+        if sorted(set(rl.tolist())) != list(range(na)) or sorted(set(cl.tolist())) != list(range(nb)):
+            cov.hit("dual:labels-not-contiguous")
+            continue
+        if (int(bm.n_row_clusters), int(bm.n_column_clusters)) != (na, nb):
+            ctx.issue("violation", "BARTMAP.fit:dual:n_clusters", f"n_row/column_clusters {bm.n_row_clusters}/{bm.n_column_clusters}, labels say {na}/{nb}", rep)
+        elif rows_.shape != (na * nb, nr) or cols_.shape != (na * nb, nc):
+            ctx.issue("violation", "BARTMAP.fit:dual:shapes", f"rows_ {rows_.shape} columns_ {cols_.shape}; {na} row x {nb} column clusters on a {nr}x{nc} matrix", rep)
+        else:
+            cover = rows_.astype(int).T @ cols_.astype(int)
+            if not np.all(cover == 1):
+                a, b = [int(t) for t in np.argwhere(cover != 1)[0]]
+                ctx.issue("violation", "BARTMAP.fit:dual:partition", f"cell ({a},{b}) lies in {int(cover[a, b])} biclusters", rep)
+            elif any(not (np.array_equal(rows_[a * nb + b], rl == a) and np.array_equal(cols_[a * nb + b], cl == b))
+                     for a in range(na) for b in range(nb)):
+                ctx.issue("violation", "BARTMAP.fit:dual:membership", "a bicluster differs from the label pre-images", rep)
+        cov.hit("dual:fit-returned" + (":merged-categories" if merged else ""))
+        cov.case(("dual", nr, nc, eta, side, i), merged)
+
+
 def run(ctx):
     from collections import defaultdict
     stats = defaultdict(int)
@@ -469,3 +518,4 @@ def run(ctx):
     ctx.trusted += ["numpy boolean-mask equality and np.vstack (one-line model: rowsOf/columnsOf)",
                     "scipy.stats.pearsonr (not modelled; enters as oracle)"]
     multi_epoch(ctx)
+    dual_modules(ctx)
